@@ -156,6 +156,8 @@ def _decade(x):
     return ">1e100"
 
 
+REQUIRED_LABELS = ['tvd_region/opposite-or-zero', 'tvd_region/mag:<1e-100', 'tvd_region/mag:>1e100', 'tvd_region/ratio:1e+12', 'tvd_region/ratio:1e+00', 'tvd_region/homogeneity-tested', 'tvd_region/sign:-']
+
 SUBCHECKS = [
     SubCheck("tvd_region", check, strategy=strat, examples={"quick": 1500, "thorough": 12000},
              shards={"quick": 4, "thorough": 16}),
